@@ -122,13 +122,40 @@ class ConstEval:
             return r.v
         return None
 
-    def literals(self, func: Func):
+    def literals_through(self, func: Func, depth: int = 2):
+        """literals(func), plus - for every call of a private helper of the repository whose arguments include constants -
+        the literals of the helper with those parameters preset (so that a table handed to a shared helper is still found)."""
+        from .resolve import bind_call
+        out = list(self.literals(func))
+        if depth <= 0:
+            return out
+        for n in ast.walk(func.node):
+            if not isinstance(n, ast.Call):
+                continue
+            t = self.ix.resolve_expr(func.module, n.func, func) if not isinstance(n.func, ast.Call) else None
+            if not isinstance(t, Func) or t is func:
+                continue
+            try:
+                b, _ = bind_call(n, t, False)
+            except Exception:
+                continue
+            preset = {}
+            for p, e in b.items():
+                try:
+                    preset[p] = self.expr(e, {}, func, 1)
+                except NotConst:
+                    pass
+            if preset:
+                out += self.literals(t, preset=preset)
+        return out
+
+    def literals(self, func: Func, preset=None):
         """Tolerant pass over a function whose parameters are NOT constants: every assignment `name = <expr>` whose
         right-hand side evaluates in the constant fragment (using earlier such bindings) is recorded, in source order,
         with the chain of branch tests it sits under.  Statements outside the fragment are skipped.
         Returns [(name, value, guards, node)] with guards a tuple of (test source, taken?)."""
         out = []
-        env: Dict[str, Any] = {}
+        env: Dict[str, Any] = dict(preset or {})
 
         def walk(stmts, guards):
             for st in stmts:
